@@ -124,6 +124,7 @@ func genProgram(t *rapid.T) Case {
 			c.Ops = append(c.Ops, peng.Op{Kind: "stop", Thread: 0, Call: scen.CallSpec{Node: v}})
 		}
 	}
+	c.Jitter = peng.GenJitter(t)
 	return Case{P: &c, Victims: victims}
 }
 
